@@ -174,6 +174,11 @@ func init() {
 			fr.i.cx.fresh++
 			return fmt.Sprintf("id%022d", fr.i.cx.fresh)
 		},
+		"github.com/yorkie-team/yorkie/server/profiling/prometheus.NewMetrics": func(fr *frame, args []value) value {
+			return tuple{(*value)(nil), iface{}} // all Metrics methods have empty bodies
+		},
+		"github.com/yorkie-team/yorkie/server/logging.DefaultLogger": func(fr *frame, args []value) value { return (*value)(nil) },
+		"github.com/yorkie-team/yorkie/server/logging.New":           func(fr *frame, args []value) value { return (*value)(nil) },
 		// background tasks (publication, snapshot storing) are outside
 		"(*github.com/yorkie-team/yorkie/server/backend.Backend).Go": noop,
 		"time.Now":   ext۰time۰Now,
